@@ -16,7 +16,7 @@ import sys
 import time
 
 ROOT = os.path.dirname(os.path.dirname(os.path.abspath(__file__)))
-REPO = '/repo'
+REPO = os.environ.get('VERIF_REPO', '/repo')   # VERIF_REPO: run the checks against a scratch worktree (seeded-change testing)
 COQ = os.path.join(ROOT, 'coq')
 ENV = dict(os.environ, GOFLAGS='-mod=mod', GOPROXY='off', GOSUMDB='off', GOTOOLCHAIN='local',
            CARGO_NET_OFFLINE='true', PIP_NO_INDEX='1')
@@ -296,7 +296,13 @@ class Check:
             except Exception:
                 pass
         exe = os.path.join(self.build, 'h')
-        rc, out, err, dt = run(['go', 'build', '-tags', 'verif', '-overlay', ov, '-o', exe, './cmd/' + self.harness], cwd=hd, timeout=1500)
+        modflag = []
+        if REPO != '/repo':
+            alt = os.path.join(self.build, 'alt.mod')
+            open(alt, 'w').write(open(os.path.join(hd, 'go.mod')).read().replace('=> /repo', '=> ' + REPO))
+            shutil.copy(os.path.join(hd, 'go.sum'), os.path.join(self.build, 'alt.sum'))
+            modflag = ['-modfile=' + alt]
+        rc, out, err, dt = run(['go', 'build'] + modflag + ['-tags', 'verif', '-overlay', ov, '-o', exe, './cmd/' + self.harness], cwd=hd, timeout=1500)
         self.go_build_s = dt
         if rc != 0:
             self.problems.append('harness no longer builds against /repo (correspondence broken): ' + ' '.join((out + err).split())[-600:])
